@@ -24,48 +24,50 @@ var famBounds = map[string][3]int64{
 	"ptrfan-overlong-name": {123, 0, 16},
 	// the pinned decoder rejects pointer chains (measured {342, 0, 118}); the bound is the one of a plain pointer fan,
 	// which is what a decoder that follows chains within the 255-octet limit would cost
-	"ptrchain-fan":               {32847, 0, 548},
-	"ptrchain-fan-short-links":   {32849, 0, 548},
-	"ptr-to-long-chain-forward":  {1014, 0, 16},
-	"ptr-to-long-chain-backward": {5427, 0, 47},
-	"unterminated-label-chain":   {1030, 0, 16},
-	"many-short-names":           {267, 0, 49},
-	"relay-nesting":              {101, 217, 46},
-	"relay-reply-nesting":        {101, 217, 46},
-	"relay-mixed-nesting":        {98, 217, 43},
-	"duid-flood":                 {151, 0, 37},
-	"byte-string-flood":          {133, 0, 33},
-	"ia-nesting":                 {175, 648, 111},
-	"iaaddr-nesting":             {105, 648, 50},
-	"4rd-nesting":                {291, 217, 199},
-	"relay-nesting-broken":       {98, 2, 16},
-	"ia-nesting-broken":          {166, 217, 16},
-	"iaaddr-nesting-broken":      {92, 217, 16},
-	"4rd-nesting-broken":         {262, 2, 16},
-	"iana-nesting":               {125, 648, 67},
-	"iapd-nesting":               {125, 648, 67},
-	"iaprefix-nesting":           {112, 649, 55},
-	"iapd-iaprefix-nesting":      {119, 649, 59},
-	"iana-iaaddr-nesting":        {111, 648, 56},
-	"iaprefix-nesting-broken":    {97, 218, 16},
-	"iana-siblings":              {182, 0, 72},
-	"iata-siblings":              {247, 0, 121},
-	"iapd-siblings":              {182, 0, 72},
-	"iaaddr-siblings":            {158, 0, 52},
-	"iaprefix-siblings":          {164, 0, 58},
-	"minimal-options":            {64, 0, 16},
-	"oro-flood":                  {103, 0, 20},
-	"class-item-overrun":         {483, 0, 16},
-	"vendorclass-item-overrun":   {479, 0, 16},
-	"userclass-items":            {323, 0, 72},
-	"vendorclass-items":          {229, 0, 55},
-	"bootfileparam-items":        {250, 0, 54},
-	"vendoropts-suboptions":      {202, 0, 71},
-	"ntp-suboptions":             {209, 0, 84},
-	"dns-addresses":              {114, 0, 26},
-	"dhcpv4-in-v6":               {78, 0, 17},
-	"v4-repeated-option":         {75, 0, 18},
-	"v4-repeated-max-option":     {98, 0, 24},
-	"v4-empty-options":           {218, 0, 53},
-	"v4-domainsearch-ptrfan":     {16304, 0, 551},
+	"ptrchain-fan":                   {32847, 0, 548},
+	"ptrchain-fan-short-links":       {32849, 0, 548},
+	"ptr-to-long-chain-forward":      {1014, 0, 16},
+	"ptr-to-long-chain-backward":     {5427, 0, 47},
+	"unterminated-label-chain":       {1030, 0, 16},
+	"many-short-names":               {267, 0, 49},
+	"relay-nesting":                  {101, 217, 46},
+	"relay-reply-nesting":            {101, 217, 46},
+	"relay-mixed-nesting":            {98, 217, 43},
+	"duid-flood":                     {151, 0, 37},
+	"byte-string-flood":              {133, 0, 33},
+	"ia-nesting":                     {175, 648, 111},
+	"iaaddr-nesting":                 {105, 648, 50},
+	"4rd-nesting":                    {291, 217, 199},
+	"relay-nesting-broken":           {98, 2, 16},
+	"ia-nesting-broken":              {166, 217, 16},
+	"iaaddr-nesting-broken":          {92, 217, 16},
+	"4rd-nesting-broken":             {262, 2, 16},
+	"iana-nesting":                   {125, 648, 67},
+	"iapd-nesting":                   {125, 648, 67},
+	"iaprefix-nesting":               {112, 649, 55},
+	"iapd-iaprefix-nesting":          {119, 649, 59},
+	"iana-iaaddr-nesting":            {111, 648, 56},
+	"iaprefix-nesting-broken":        {97, 218, 16},
+	"iana-siblings":                  {182, 0, 72},
+	"iata-siblings":                  {247, 0, 121},
+	"iapd-siblings":                  {182, 0, 72},
+	"iaaddr-siblings":                {158, 0, 52},
+	"iaprefix-siblings":              {164, 0, 58},
+	"ntp-fqdn-suboptions-compressed": {171, 0, 55},
+	"compressed-name-options":        {176, 0, 57},
+	"minimal-options":                {64, 0, 16},
+	"oro-flood":                      {103, 0, 20},
+	"class-item-overrun":             {483, 0, 16},
+	"vendorclass-item-overrun":       {479, 0, 16},
+	"userclass-items":                {323, 0, 72},
+	"vendorclass-items":              {229, 0, 55},
+	"bootfileparam-items":            {250, 0, 54},
+	"vendoropts-suboptions":          {202, 0, 71},
+	"ntp-suboptions":                 {209, 0, 84},
+	"dns-addresses":                  {114, 0, 26},
+	"dhcpv4-in-v6":                   {78, 0, 17},
+	"v4-repeated-option":             {75, 0, 18},
+	"v4-repeated-max-option":         {98, 0, 24},
+	"v4-empty-options":               {218, 0, 53},
+	"v4-domainsearch-ptrfan":         {16304, 0, 551},
 }
